@@ -136,6 +136,35 @@ pub fn run(ctx: &mut Ctx) {
                             }
                             check_arrangement(ctx, case, &format!("lookup-order:{}", mode.name()), &ldir, &ldir.join("all.jbk"), &expected);
                             narr += 1;
+                            // several steps and repeated packs: the concatenation of a file with a
+                            // container that already holds its packs (both orders), and the
+                            // concatenation of that result alone; every result sits alone in a fresh
+                            // directory, so a pack lost on the way cannot be found beside it
+                            let steps: [(&str, Vec<PathBuf>); 2] = [("entry+all", vec![entry.clone(), out.clone()]), ("all+entry", vec![out.clone(), entry.clone()])];
+                            for (sname, ins2) in steps {
+                                let d1 = root.join(format!("{}-re-{}", mode.name(), sname));
+                                std::fs::create_dir_all(&d1).unwrap();
+                                let o1 = d1.join("merged.jbk");
+                                let o1p = camino::Utf8PathBuf::from_path_buf(o1.clone()).unwrap();
+                                match util::guarded(|| jbk::tools::concat(&ins2, &o1p)) {
+                                    Ok(Ok(())) => {
+                                        check_arrangement(ctx, case, &format!("reconcat:{} {}", mode.name(), sname), &d1, &o1, &expected);
+                                        narr += 1;
+                                        let d2 = root.join(format!("{}-re2-{}", mode.name(), sname));
+                                        std::fs::create_dir_all(&d2).unwrap();
+                                        let o2 = d2.join("again.jbk");
+                                        let o2p = camino::Utf8PathBuf::from_path_buf(o2.clone()).unwrap();
+                                        match util::guarded(|| jbk::tools::concat(&[o1.clone()], &o2p)) {
+                                            Ok(Ok(())) => {
+                                                check_arrangement(ctx, case, &format!("reconcat:{} concat({})", mode.name(), sname), &d2, &o2, &expected);
+                                                narr += 1;
+                                            }
+                                            other => ctx.fail(case, "concat", &format!("tools::concat([concat({})]) failed: {:?}", sname, other.map(|r| r.map_err(|e| util::err_kind(&e))))),
+                                        }
+                                    }
+                                    other => ctx.fail(case, "concat", &format!("tools::concat({}) failed: {:?}", sname, other.map(|r| r.map_err(|e| util::err_kind(&e))))),
+                                }
+                            }
                         }
                     }
                     other => ctx.fail(case, "concat", &format!("tools::concat({:?}) failed: {:?}", perm, other.map(|r| r.map_err(|e| util::err_kind(&e))))),
